@@ -368,7 +368,85 @@ pub fn run(tier: Tier, seed: u64) -> i32 {
             run.acc.count("quit_slow_outliers", 1);
         }
     }
+    unknown_go_tokens_timed(&mut run, &plain, &roots);
     super::sanit::c17_valgrind(&mut run, &plain, &roots);
     run.floor_distinct = 50;
     run.finish()
+}
+
+/// Unknown tokens inside a `go` that carries clocks: they must not change what the engine
+/// understood. Observable without hooks through the exact lower bound on the delay: the plan P of
+/// the clean line is computed by the repository's own parser and time policy; the same line with
+/// unknown tokens inserted between its name/value pairs must not be answered before P.
+fn unknown_go_tokens_timed(run: &mut Run, plain: &PathBuf, roots: &[History]) {
+    let seed = run.seed;
+    let sessions = run.tier.pick(16usize, 160);
+    let res = run_parallel(8, sessions, |sid| {
+        let mut acc = Acc::new();
+        let mut rng = Rng::stream(seed, 0xC17_4000 + sid as u64);
+        let mut s = match Sess::start(plain, SpawnOpts::default(), false) {
+            Ok(s) => s,
+            Err(e) => {
+                acc.inconclusive.push(format!("session start failed: {}", e));
+                return acc;
+            }
+        };
+        for i in 0..8 {
+            let h = &roots[rng.below(roots.len() as u64) as usize];
+            s.position(h);
+            let (mine, theirs) = if h.end.stm == Color::White { ("wtime", "btime") } else { ("btime", "wtime") };
+            let ms = 25 + rng.below(50);
+            let clock = 100 + (ms as f64 / 0.8).round() as u64;
+            let pairs: Vec<String> = vec![format!("{} {}", mine, clock), "movestogo 1".to_string(), format!("{} {}", theirs, 1000 + rng.below(5000))];
+            let clean = format!("go {}", pairs.join(" "));
+            let plan = match plan_for(&clean, h.end.stm) {
+                Ok(p) => p,
+                Err(_) => continue,
+            };
+            // unknown tokens only between (or around) the name/value pairs
+            let mut parts: Vec<String> = Vec::new();
+            let mut order = pairs.clone();
+            rng.shuffle(&mut order);
+            let n_unknown = 1 + rng.below(3);
+            let mut slots: Vec<usize> = (0..=order.len()).collect();
+            rng.shuffle(&mut slots);
+            let slots: Vec<usize> = slots.into_iter().take(n_unknown as usize).collect();
+            for (k, pr) in order.iter().enumerate() {
+                if slots.contains(&k) {
+                    parts.push(rng.pick(&["ponder", "infinite", "foo", "searchmoves", "depth", "nodes", "mate", "movetime"]).to_string());
+                }
+                parts.push(pr.clone());
+            }
+            if slots.contains(&order.len()) {
+                parts.push(rng.pick(&["ponder", "infinite", "bar"]).to_string());
+            }
+            let dirty_args = parts.join(" ");
+            let g = s.go(&dirty_args, WATCHDOG);
+            acc.evaluations += 1;
+            let lat = match g.latency_ms() {
+                Some(l) => l,
+                None => {
+                    acc.inconclusive.push("timed go with unknown tokens not answered".into());
+                    return acc;
+                }
+            };
+            s.eng.drain(Duration::from_millis(3));
+            acc.distinct.insert(hash64(&format!("ugt|{}|{}", sid, i)));
+            acc.feature("timed_go_with_unknown_tokens");
+            if sid == 0 && i == 0 {
+                acc.sample(json!({"clean": clean, "with_unknown_tokens": format!("go {}", dirty_args), "plan_ms_of_clean_line": plan as u64, "measured_ms": (lat * 10.0).round() / 10.0}));
+            }
+            if lat < plan as f64 - 1.0 {
+                acc.violation(
+                    format!("C17|go-tokens|{}", dirty_args),
+                    format!("'go {}' was answered after {:.1} ms although the same line without the unknown tokens ('{}') plans {} ms: the unknown tokens changed what the engine understood", dirty_args, lat, clean, plan),
+                    json!({"kind": "session", "property": "C17", "script": [h.command(), format!("go {}", dirty_args)]}),
+                );
+            }
+        }
+        acc
+    });
+    for a in res {
+        run.acc.merge(a, &[]);
+    }
 }
